@@ -294,6 +294,7 @@ def _batch(acc, workdir, shards, tier, deep, seed):
         # cases between the last checkpoint and the death did run, but their statistics died with the child
         acc.count("cases_run_but_not_counted", idx - counted)
         acc.seen("death_kinds", kind)
+        acc.seen("groups_dead", C.FAMILIES[case[0]].group(case))
         deaths += 1
         if kind not in NOT_VIOLATIONS:
             skip.append(C.FAMILIES[case[0]].group(case))  # one death per entry point and batch; go on with the others
@@ -399,7 +400,6 @@ def all_tasks(tier, seed, workers):
 
 
 WEIGHT = {"life": 6.0, "modexp": 8.0, "ec": 40.0, "aead": 2.5, "blk": 1.3, "hash": 1.3, "misc": 0.6, "ctor": 2.0, "stream": 0.7}
-EXPECTED_LIBS = 42
 
 
 def run(ctx):
@@ -417,7 +417,6 @@ def run(ctx):
     # ---- native call accounting ------------------------------------------------------------------
     calls = {k[4:]: v for k, v in a.n.items() if k.startswith("_nc/")}
     declared = sorted(d.get("declared", ()))
-    libs_declared = sorted({x.split(".")[0] for x in declared})
     libs_reached = sorted({x.split(".")[0] for x in calls})
     never = [f for f in declared if f not in calls]
     indirect = []
@@ -444,7 +443,7 @@ def run(ctx):
     ctx.require("ValueError" in d.get("exc_types", ()) and len(d.get("exc_types", ())) >= 2,
                 "expected ValueError and at least one other exception class, saw %s" % sorted(d.get("exc_types", ())))
     groups = set(d.get("groups", ()))
-    silent = sorted(g for g in groups if g not in d.get("groups_ok", ()))
+    silent = sorted(g for g in groups if g not in d.get("groups_ok", ()) and g not in d.get("groups_dead", ()))
     ctx.require(not silent, "entry points on which no case ever completed normally: %s" % silent[:8])
     ctx.require(a.n.get("deep_relocated", 0) > a.n.get("cases_deep_mode", 0), "deep mode relocated too few buffers")
     ctx.require(a.n.get("nontrivial", 0) > 0.8 * a.n.get("evaluations", 1), "too many cases made no native call")
@@ -470,17 +469,7 @@ def run(ctx):
         "extension_modules_with_counted_calls": len(libs_reached),
         "extension_modules_without_calls": not_loaded,
         "child_deaths": deaths,
-        "grid": {
-            "lengths": "thorough: every 0..260, 511..513, 4095..4097, 8191..8193, 65536; quick: every 0..80, +-1 around "
-                       "1,2,3,4,8 blocks and 64/128/136/144/168/256, 511..513, and the large ones for the primary classes",
-            "placements": "E: buffer ends at a PROT_NONE page; S: buffer starts after a PROT_NONE page; O (lengths that are a "
-                          "multiple of 8 only): buffer ends one byte before a PROT_NONE page, i.e. starts at an odd address",
-            "aliasing": "returned / separate output same placement / opposite placement / output is input / output overlaps "
-                        "input shifted by one block in both directions / output one byte too big / too small",
-            "modes": "plain (library untouched) and deep (every buffer argument of every native call relocated to guard pages)",
-            "life_cycle": "alphabet %s, all histories to depth %d per class (quick: 3, and 4 for the primary classes)"
-                          % (list(_life_ops()), 4),
-        },
+        "grid": grid_description(tier),
     })
     ctx.assume("data values: one seeded SHAKE256 stream (VERIF_SEED) for keys, nonces, messages; structure enumeration is seed-independent")
     ctx.assume("allocation failure paths: only those reachable with allocator_may_return_null=1 on absurd sizes; no fault injection into malloc")
@@ -492,9 +481,42 @@ def run(ctx):
     ctx.assume("uninitialised-memory reads (MSan) and leaks (detect_leaks=0) are not part of this check")
 
 
-def _life_ops():
-    from . import _c17_cases2
-    return _c17_cases2.LIFE_OPS
+def grid_description(tier):
+    from . import _c17_cases2 as C2
+    th = tier == "thorough"
+    blk = C.blk_targets(tier)
+    aead = C.aead_targets(tier)
+    return {
+        "lengths": "every 0..260, 511..513, 4095..4097, 8191..8193, 65536" if th else
+                   "primary class configurations: every 0..80, +-1 around 1,2,3,4,8 blocks and 64/128/136/144/168/256, 511..513, "
+                   "4095..4097, 8191..8193, 65536; secondary configurations (same native code as a primary one, other key "
+                   "size / block primitive / parameter): every 0..2c+1 and +-1 around 4c, 8c, 256 (c = block or cache size)",
+        "placements": "E: buffer ends at a PROT_NONE page; S: buffer starts after a PROT_NONE page; O (lengths that are a "
+                      "multiple of 8 only): buffer ends one byte before a PROT_NONE page, i.e. starts at an odd address",
+        "aliasing": "returned / separate output same placement / opposite placement / output is input / output overlaps "
+                    "input shifted by one block in both directions / output one byte too big / too small"
+                    + ("" if th else " (quick: the full set on the first call of primary configurations; "
+                       "{separate, in-place} after a partial-block prefix; {returned, separate, in-place, one overlap} on secondary ones)"),
+        "prefix": "each data call also after a first call of 1 / block-1 (stream-like modes), one block (ECB, CBC), 1/15/16 (AEAD) bytes",
+        "modes": "plain (library untouched) and deep (every buffer argument of every native call relocated to guard pages; cases "
+                 "without caller buffers - EC, big integers, life cycles - run under E and under S)",
+        "block_cipher_mode_configurations": len(blk),
+        "block_cipher_primary": [list(t[:3]) + [dict(t[3])] for t in blk if th or C.Blk.primary(t)][:40],
+        "stream_cipher_configurations": [list(t) for t in C.STREAMS],
+        "aead_configurations": [list(t[:3]) + [dict(t[3])] for t in aead],
+        "hash_xof_mac_classes": sorted(C2.HASHES),
+        "other_entry_points": ["strxor", "strxor_c", "scrypt", "bcrypt/bcrypt_check", "_EKSBlowfish", "PBKDF2 fast path",
+                               "_pkcs1_oaep_decode.pkcs1_decode", "_pkcs1_oaep_decode.oaep_decode", "PKCS1_v1_5/OAEP decrypt",
+                               "cpuid", "constructor key/IV/nonce/segment/tag/counter parameters of every cipher x mode"],
+        "curves": list(C2.WCURVES + C2.ECURVES + C2.XCURVES),
+        "ec": "coordinates from a 14-value boundary alphabet (all pairs); scalars of every byte length 0..80 in 5 bit patterns "
+              "on G (fixed-base path), 7G and the neutral element; add/double/neg/cmp/copy/set/export on 6 points (all pairs)",
+        "modexp_operand_bytes": "every 1..280" if th else "every 1..41, +-1 around every multiple of 8 up to 264, 265, 272",
+        "life_cycle": "alphabet %s; all histories of length <= %s without no-op steps (%d per class), %d classes%s"
+                      % (list(C2.LIFE_OPS), "4" if th else "3 (4 for %d primary classes)" % len(C2.LIFE_PRIMARY),
+                         len(C2.life_histories(4 if th else 3)), len(C2.life_names()),
+                         "" if th else "; plain mode only in quick"),
+    }
 
 
 # ---------------------------------------------------------------------------------------------------
